@@ -11,7 +11,8 @@
 (* Required behaviour (the property):                                      *)
 (*   InsertOK  - breakpoints stay ascending, the (breakpoint, slope) pairs *)
 (*               are the old ones plus the new one, old order kept;        *)
-(*   PopOK     - removes exactly pair i (i = 0 refused);                   *)
+(*   PopOK     - removes exactly pair i (i = 0 refused; a negative i       *)
+(*               counts from the end like a Python list index);            *)
 (*   invariants Ascending, Paired, FirstIsZero, InterceptsFresh,           *)
 (*   ZeroAtZero, Continuous, Unique (the function is the integral of the   *)
 (*   slopes).                                                              *)
@@ -28,12 +29,18 @@ CONSTANTS Grid,      \* breakpoints that can be inserted (integers, unit 1/Q)
           MaxLen,    \* bound on the number of breakpoints
           MaxOps,    \* bound on the number of edits in a behaviour
           Variant,   \* "argmax" | "bisect"
-          Sharing,   \* "copy" (to_dict copies its lists) | "alias" (the reloaded object shares intervals/slopes
-                     \* with the object it was made from: a named variant, expected to be rejected)
+          Sharing,   \* who shares its breakpoint/slope lists with the live object (everything but "copy" is a named
+                     \* variant that is expected to be rejected):
+                     \*   "copy"      nobody: to_dict, from_dict and the constructor all copy;
+                     \*   "alias"     the object a reload was made from (to_dict hands out its own lists);
+                     \*   "dictalias" the serialised record a reload was made from (from_dict / the constructor keep the
+                     \*               lists they are given) - and with it every other object loaded from that record;
+                     \*   "ctoralias" a second object constructed from the same argument lists
           InitSets   \* set of initial breakpoint sequences
 
 VARIABLES iv, sl, ic, h,
-          frozen    \* objects left behind by Reload (to_dict / from_dict): they must never change again
+          frozen    \* things left behind that must never change again: [1] a second object constructed from the
+                    \* same arguments, then per Reload the object that was serialised and the serialised record
 vars == <<iv, sl, ic, h, frozen>>
 
 RECURSIVE Intercepts(_, _, _)
@@ -64,7 +71,9 @@ InsertOK(oiv, osl, niv, nsl, x, s) ==
    /\ Len(niv) = Len(oiv) + 1 /\ Len(nsl) = Len(niv)
    /\ IsAscending(niv)
    /\ \E p \in 0..Len(oiv) : niv = InsertAt(oiv, p, x) /\ nsl = InsertAt(osl, p, s)
-PopOK(oiv, osl, niv, nsl, i) ==       \* i is the 0-based python index, i >= 1
+PyIndex(i, n) == IF i < 0 THEN i + n ELSE i      \* a python list index counted from the end when negative
+PopOK(oiv, osl, niv, nsl, i0) ==      \* i0 is the 0-based python index, 1 <= i0 < n or -(n-1) <= i0 <= -1
+   LET i == PyIndex(i0, Len(oiv)) IN
    /\ i >= 1 /\ i < Len(oiv)
    /\ niv = RemoveAt(oiv, i + 1) /\ nsl = RemoveAt(osl, i + 1)
 
@@ -84,15 +93,20 @@ F(ivs, sls, x) == Integral(ivs, sls, x, 1)
 \* ---- behaviours
 Rec(a, x, s) == [act |-> a, x |-> x, s |-> s, iv |-> iv', sl |-> sl', ic |-> ic']
 \* what an edit of the live object does to the objects left behind
-Touch == IF Sharing = "alias" /\ Len(frozen) > 0
-         THEN frozen' = [frozen EXCEPT ![Len(frozen)] = [iv |-> iv', sl |-> sl', ic |-> @.ic]]
+\* (an edit writes through to whatever shares the lists; the intercepts of the other holder stay as they were)
+TouchIdx == CASE Sharing = "alias" /\ Len(frozen) > 1 -> Len(frozen) - 1
+              [] Sharing = "dictalias" /\ Len(frozen) > 1 -> Len(frozen)
+              [] Sharing = "ctoralias" /\ Len(frozen) = 1 -> 1     \* until the first reload replaces the live object
+              [] OTHER -> 0
+Touch == IF TouchIdx > 0
+         THEN frozen' = [frozen EXCEPT ![TouchIdx] = [iv |-> iv', sl |-> sl', ic |-> @.ic]]
          ELSE UNCHANGED frozen
 
 Init == /\ iv \in InitSets
         /\ sl \in [1..Len(iv) -> Slopes]
         /\ ic = Recompute(iv, sl)
         /\ h = <<[act |-> "construct", x |-> 0, s |-> 0, iv |-> iv, sl |-> sl, ic |-> ic]>>
-        /\ frozen = <<>>
+        /\ frozen = <<[iv |-> iv, sl |-> sl, ic |-> ic]>>            \* the sibling built from the same arguments
 
 Insert(x, s) == /\ Len(iv) < MaxLen /\ Len(h) <= MaxOps
                 /\ LET p == Pos(Variant, iv, x) IN
@@ -106,16 +120,23 @@ Pop(i) == /\ Len(h) <= MaxOps /\ i >= 1 /\ i < Len(iv)
           /\ ic' = Recompute(iv', sl')
           /\ h' = Append(h, Rec("pop", i, 0))
           /\ Touch
+\* pop(-j): the j-th pair from the end, i.e. python's list.pop(-j); -Len(iv) (the first pair) is not offered
+PopNeg(j) == /\ Len(h) <= MaxOps /\ j >= 1 /\ j < Len(iv)
+             /\ LET i == Len(iv) - j IN iv' = RemoveAt(iv, i + 1) /\ sl' = RemoveAt(sl, i + 1)
+             /\ ic' = Recompute(iv', sl')
+             /\ h' = Append(h, Rec("pop", 0 - j, 0))
+             /\ Touch
 PopZero == /\ Len(h) <= MaxOps /\ h[Len(h)].act # "pop0"
            /\ UNCHANGED <<iv, sl, ic, frozen>>           \* refused: ValueError, no change
            /\ h' = Append(h, Rec("pop0", 0, 0))
 Reload == /\ Len(h) <= MaxOps /\ h[Len(h)].act # "reload"
           /\ UNCHANGED <<iv, sl>> /\ ic' = Recompute(iv, sl)
           /\ h' = Append(h, Rec("reload", 0, 0))
-          /\ frozen' = Append(frozen, [iv |-> iv, sl |-> sl, ic |-> ic])   \* the old object stays behind
+          \* the old object and the serialised record (it carries the intercepts too) stay behind
+          /\ frozen' = frozen \o <<[iv |-> iv, sl |-> sl, ic |-> ic], [iv |-> iv, sl |-> sl, ic |-> ic]>>
 
 Next == \/ \E x \in Grid, s \in Slopes : Insert(x, s)
-        \/ \E i \in 1..MaxLen : Pop(i)
+        \/ \E i \in 1..MaxLen : Pop(i) \/ PopNeg(i)
         \/ PopZero \/ Reload
 Spec == Init /\ [][Next]_vars
 
